@@ -7,6 +7,17 @@ import subprocess
 HERE = os.path.dirname(os.path.dirname(os.path.abspath(__file__)))
 
 CHECKS = {
+    "C02": dict(level="exploration", engine="progspace", design="5/C02",
+                technique="enumeration of std entry points x canonical receivers x hostile argument products, of the runnable corpus and of its "
+                          "integer-literal mutants, each executed on both code generators (differential + defined-ending oracle)",
+                text="Signatures are extracted from pkgs/std in the current tree; every public function/method whose parameters are "
+                     "sweepable is called on canonical receivers with the full product of boundary values (extreme lengths, indices, shift "
+                     "amounts, conversions incl. NaN/inf, 4-byte characters, 140 KB strings); every call the front end accepts is compiled "
+                     "with the baseline and the optimizing generator and run. Every test/rt program runs with its directives, and literal "
+                     "mutants of them that the front end still accepts. stdout, status and first stderr line must agree and the ending must "
+                     "be exit or a documented trap with its message -- never a signal, runtime panic or compiler crash.",
+                note="programs using time, randomness, threads, files/sockets are excluded by rule (listed count); runs that exceed the time "
+                     "limit on both generators are listed, not judged; arm64 output is not executable here"),
     "C04": dict(level="model_checking", engine="sched", design="5/C04",
                 technique="stateless model checking of the real runtime code with loom (DPOR, preemption-bounded for >2 threads) "
                           "through a cfg-gated synchronisation shim",
